@@ -3,6 +3,7 @@ import WM.Lemmas.IndexGroup
 import WM.Lemmas.IndexLayout
 import WM.Lemmas.IndexBuild
 import WM.Lemmas.IndexPartition
+import WM.Lemmas.IndexReadd
 /-!
 # C06 — segment layout is invisible
 
@@ -339,5 +340,34 @@ example : let d7 := restrict Ex.sc (Ex.doc 7 8); let d8 := restrict Ex.sc (Ex.do
     rcases hx with rfl | rfl
     · exact ⟨planNoMerge_ok, by decide⟩
     · exact ⟨planOptimize_ok, by decide⟩
+
+/-- **readd_after_optimize.** After `commit(optimize=True)` a field name that is not in the schema
+is *fresh* again: no live document of the committed index carries data of it, so the freshness
+hypothesis `OpOK (.addField f _)` under which `WM.C07.refines_dict` covers `add_field` holds for
+the next writer — `remove_field f`, an optimising commit, `add_field f` refines the dictionary
+(the old documents do not get their old values of `f` back), whatever the layout was before. -/
+theorem readd_after_optimize (w : Writer) (hwf : w.WF) (hfits : ∀ d ∈ w.ndocs, d.fits w.schema = true) (t' : Toc)
+    (h : w.commitPlan planOptimize = .ok t') (ss : Sess) (f : Nat) (u : Bool) (hf : t'.schema.has f = false) :
+    OpOK t'.writer ss (.addField f u) := by
+  obtain ⟨_, _, hp⟩ := optimize_purges w hwf hfits t' h
+  show ∀ q ∈ liveGlobal t'.segs 0, q.1.hasField f = false
+  intro q hq
+  obtain ⟨s, hs, hd⟩ := liveGlobal_mem_docs t'.segs 0 q hq
+  exact fits_hasField_false _ _ _ ((hp s hs).1 q.1 hd) hf
+
+/-- non-vacuity: the writer over `Ex.seg` (whose documents still carry the removed field 2) commits
+    with OPTIMIZE, field 2 is not in the schema, and before that commit the hypothesis fails. -/
+example : let w := ({ schema := Ex.sc, segs := [Ex.seg], gen := 3 } : Toc).writer
+    (∃ t', w.commitPlan planOptimize = .ok t' ∧ t'.schema.has 2 = false) ∧
+    ¬ OpOK w ({ schema := Ex.sc, docs := [] } : State).open_ (.addField 2 false) := by
+  refine ⟨?_, ?_⟩
+  · obtain ⟨t', ht', _⟩ := Writer.commitPlan_ok (({ schema := Ex.sc, segs := [Ex.seg], gen := 3 } : Toc).writer) planOptimize
+      (Toc.writer_wf _ (by intro s hs; simp only [List.mem_singleton] at hs; subst hs; exact Ex.seg_wf))
+      (by intro s hs; simpa [planOptimize] using hs)
+    refine ⟨t', ht', ?_⟩
+    rw [Writer.commitPlan_schema _ _ _ ht']; decide
+  · intro h
+    have := h (Ex.doc 0 3, 0) (by decide)
+    revert this; decide
 
 end WM.C06
